@@ -129,9 +129,29 @@ CanDecideStrict == phase = "cont" => (AllDecided \/ CurMax <= r0 + F + 3)
 ContProgress == (phase = "cont" /\ ~AllDecided /\ CurMax < ContRounds) => ENABLED (ContStart \/ ContDeliver \/ ContDecided \/ ContTimeout)
 
 (* ---- C07 (2): fault-free synchronous run: no timeout while a message is deliverable, no Byzantine action ---- *)
+(* macro grain of the synchronous case: in-order timely delivery - an operator receives the prepares (commits) of
+   ALL correct operators back-to-back once they have all been sent *)
+SyncPrepare(i) ==
+    LET n == st[i] IN
+    /\ n.started /\ n.acc # NoProp /\ Card(Signers(AtRound(n.prep, n.round))) < PQuorum
+    /\ AvailPrep(i) = Honest
+    /\ Apply(i, [n EXCEPT !.prep = {[signer |-> s, round |-> n.round, value |-> n.acc.value] : s \in Honest},
+                         !.lpr = n.round, !.lpv = n.acc.value],
+             {[type |-> "commit", signer |-> i, round |-> n.round, value |-> n.acc.value]})
+    /\ NoByz
+    /\ act' = [name |-> "PrepareQuorum", to |-> i, signers |-> Honest, round |-> n.round, value |-> n.acc.value]
+SyncCommit(i) ==
+    LET n == st[i] IN
+    /\ n.started /\ n.acc # NoProp /\ ~n.decided
+    /\ AvailComm(i) = Honest
+    /\ Apply(i, [n EXCEPT !.comm = {[signer |-> s, round |-> n.round, value |-> n.acc.value] : s \in Honest},
+                         !.decided = TRUE, !.dval = n.acc.value, !.dround = n.round, !.dsigners = Honest,
+                         !.dlocal = TRUE, !.dfrom = n.acc.from], {})
+    /\ NoByz
+    /\ act' = [name |-> "CommitQuorum", to |-> i, signers |-> Honest, round |-> n.round, value |-> n.acc.value]
 SyncNext == /\ \E i \in Honest :
                   \/ Start(i) \/ RecvProposal(i) \/ RecvRC(i)
-                  \/ (Macro /\ (PrepareQuorumStep(i) \/ CommitQuorumStep(i)))
+                  \/ (Macro /\ (SyncPrepare(i) \/ SyncCommit(i)))
                   \/ (~Macro /\ (RecvPrepare(i) \/ RecvCommit(i)))
             /\ UNCHANGED <<phase, r0>>
 SyncSpec == Init2 /\ [][SyncNext]_allvars /\ WF_allvars(SyncNext)
